@@ -35,6 +35,13 @@ def run(chk):
     # families aimed at the lazy representation (pending rows, stale flags): each query is the first thing
     # that happens to a copy of the object in its lazy state; an equal twin built by another route is compared
     lines += gen_poly.make_lazy_cases(chk.seed * 7 + 11, 260 if chk.quick else 5000, maxdim=3)
+    # boundary family: constraints / congruences / directions whose hyperplanes pass through a known vertex
+    lines += gen_poly.make_touch_cases(chk.seed * 13 + 5, 120 if chk.quick else 2500, maxdim=3)
+    # every mutator applied to objects that hold PENDING rows (both descriptions minimized, then one more row):
+    # the state in which a mutator most easily leaves the two descriptions / the status word inconsistent
+    nm = 160 if chk.quick else 3000
+    lines += gen_poly.make_cases(chk.seed * 17 + 29, nm, maxdim=3, nobj=2, steps=3, pq=0.05, pobs=0.05, start=900000,
+                                 special=0.9, special_kinds=["pending_gens", "pending_cons", "pending_gens"])
     cdir = os.path.join(common.VERIF, "corpus", "C01")
     corpus = []
     if os.path.isdir(cdir):
